@@ -72,12 +72,28 @@ def check_plan(s, tag, res, demands, pool, fits, Status):
     s.observe("objective", res.objective)
 
 
-def h_cg(s, W, sizes, D):
+def _stop_kw(stop):
+    """on_progress callback that asks to stop at its `stop`-th call (progress_interval=1): the early exits of solve_cg / solve_bp."""
+    if not stop:
+        return {}
+    seen = [0]
+
+    def cb(progress):
+        seen[0] += 1
+        return seen[0] >= stop
+    return {"on_progress": cb, "progress_interval": 1}
+
+
+def h_cg(s, W, sizes, D, stop=0, limits=None):
     Status = importlib.import_module("solvor.types").Status
     mod = importlib.import_module("solvor.cg")
     dem = [s.int("demand%d" % i, 0, D) for i in range(len(sizes))]
     s.stub(mod, float=sym_float)
-    res = mod.solve_cg(list(dem), roll_width=W, piece_sizes=list(sizes))
+    res = mod.solve_cg(list(dem), roll_width=W, piece_sizes=list(sizes), **_stop_kw(stop), **(limits or {}))
+    if limits:
+        s.goal("limits.tight")
+    if stop:
+        s.goal("stop.requested")
     if res.status == Status.INFEASIBLE:
         # cutting stock with sizes <= W is always feasible: an INFEASIBLE answer must at least not be a usable status (it is not), record it
         s.goal("cg.reported_infeasible")
@@ -121,35 +137,42 @@ def make_pricing(pool):
     return pricing
 
 
-def h_cg_custom(s, pool, initial, D):
+def h_cg_custom(s, pool, initial, D, stop=0, limits=None):
     Status = importlib.import_module("solvor.types").Status
     mod = importlib.import_module("solvor.cg")
     m = len(pool[0])
     dem = [s.int("demand%d" % i, 0, D) for i in range(m)]
     s.stub(mod, float=sym_float)
-    res = mod.solve_cg(list(dem), pricing_fn=make_pricing([tuple(c) for c in pool]), initial_columns=[list(c) for c in initial])
+    res = mod.solve_cg(list(dem), pricing_fn=make_pricing([tuple(c) for c in pool]), initial_columns=[list(c) for c in initial],
+                       **_stop_kw(stop), **(limits or {}))
+    if stop:
+        s.goal("stop.requested")
     allowed = {tuple(c) for c in pool} | {tuple(c) for c in initial}
     check_plan(s, "cg", res, dem, sorted(allowed), lambda p: p in allowed, Status)
     s.goal("cg.custom")
 
 
-def h_bp(s, W, sizes, D, fixed=None):
+def h_bp(s, W, sizes, D, fixed=None, stop=0, limits=None):
     Status = importlib.import_module("solvor.types").Status
     mod = importlib.import_module("solvor.bp")
     if fixed is not None:
         dem = [s.int("demand%d" % i, v, v) for i, v in enumerate(fixed)]
     else:
         dem = [s.concrete(s.int("demand%d" % i, 0, D)) for i in range(len(sizes))]
-    res = mod.solve_bp(list(dem), roll_width=W, piece_sizes=list(sizes))
+    res = mod.solve_bp(list(dem), roll_width=W, piece_sizes=list(sizes), **_stop_kw(stop), **(limits or {}))
+    if limits:
+        s.goal("limits.tight")
+    if stop:
+        s.goal("stop.requested")
     check_plan(s, "bp", res, dem, all_patterns(W, sizes), lambda p: sum(a * b for a, b in zip(p, sizes)) <= W, Status)
 
 
-def h_bp_custom(s, pool, initial, D):
+def h_bp_custom(s, pool, initial, D, stop=0, limits=None):
     Status = importlib.import_module("solvor.types").Status
     mod = importlib.import_module("solvor.bp")
     m = len(pool[0])
     dem = [s.concrete(s.int("demand%d" % i, 0, D)) for i in range(m)]
-    res = mod.solve_bp(list(dem), pricing_fn=make_pricing([tuple(c) for c in pool]), initial_columns=[list(c) for c in initial])
+    res = mod.solve_bp(list(dem), pricing_fn=make_pricing([tuple(c) for c in pool]), initial_columns=[list(c) for c in initial], **_stop_kw(stop), **(limits or {}))
     allowed = {tuple(c) for c in pool} | {tuple(c) for c in initial}
     check_plan(s, "bp", res, dem, sorted(allowed), lambda p: p in allowed, Status)
     s.goal("bp.custom")
@@ -201,6 +224,32 @@ def items(tier, rng):
             if any(c) and c not in cols:
                 cols.append(c)
         out.append({"name": "master", "harness": "h_master", "params": {"columns": cols, "D": 6 if q else 10}, "max_paths": 400, "spread": rng.randrange(1 << 30)})
+    # a progress callback that stops the run early (1st / 2nd report): whatever is returned then is still held to the same obligations
+    for k, (W, sizes) in enumerate(inst[:6] + INST4[:3]):
+        out.append({"name": "cg_stop", "harness": "h_cg", "params": {"W": W, "sizes": sizes, "D": 4, "stop": 1 + k % 2},
+                    "max_paths": 400, "spread": rng.randrange(1 << 30)})
+    for k, (W, sizes) in enumerate([inst[0], inst[1], inst[3], INST4[0]]):
+        vecs = list(itertools.product(range(3), repeat=len(sizes)))
+        for vec in (vecs if len(vecs) <= 27 else rng.sample(vecs, 27)):
+            out.append({"name": "bp_stop", "harness": "h_bp", "params": {"W": W, "sizes": sizes, "D": 2, "fixed": list(vec), "stop": 1 + (sum(vec) + k) % 3}})
+    for k, (pool, init) in enumerate(POOLS):
+        out.append({"name": "cg_custom_stop", "harness": "h_cg_custom", "params": {"pool": pool, "initial": init, "D": 4, "stop": 1 + k % 2},
+                    "max_paths": 400, "spread": rng.randrange(1 << 30)})
+        out.append({"name": "bp_custom_stop", "harness": "h_bp_custom", "params": {"pool": pool, "initial": init, "D": 2, "stop": 1 + k % 2}, "split": 2})
+    # iteration / node limits that run out before convergence: a limit-stopped answer must not be labelled OPTIMAL unless it is minimal
+    for k, (W, sizes) in enumerate(inst[:5] + INST4[:3]):
+        out.append({"name": "cg_limit", "harness": "h_cg", "params": {"W": W, "sizes": sizes, "D": 4, "limits": {"max_iter": k % 3}},
+                    "max_paths": 400, "spread": rng.randrange(1 << 30)})
+    for k, (W, sizes) in enumerate([inst[0], inst[1], inst[3], INST4[0]]):
+        vecs = list(itertools.product(range(3), repeat=len(sizes)))
+        for vec in (vecs if len(vecs) <= 27 else rng.sample(vecs, 27)):
+            lim = [{"max_iter": 0}, {"max_iter": 1}, {"max_nodes": 1}, {"max_nodes": 2, "max_iter": 2}][(sum(vec) + k) % 4]
+            out.append({"name": "bp_limit", "harness": "h_bp", "params": {"W": W, "sizes": sizes, "D": 2, "fixed": list(vec), "limits": lim}})
+    for k, (pool, init) in enumerate(POOLS + EXTRA_POOLS):
+        out.append({"name": "cg_custom_limit", "harness": "h_cg_custom", "params": {"pool": pool, "initial": init, "D": 4, "limits": {"max_iter": k % 3}},
+                    "max_paths": 400, "spread": rng.randrange(1 << 30)})
+        out.append({"name": "bp_custom_limit", "harness": "h_bp_custom", "split": 2,
+                    "params": {"pool": pool, "initial": init, "D": 2, "limits": [{"max_iter": 0}, {"max_nodes": 1}, {"max_iter": 1, "max_nodes": 2}][k % 3]}})
     for pool, init in EXTRA_POOLS:
         out.append({"name": "cg_custom", "harness": "h_cg_custom", "params": {"pool": pool, "initial": init, "D": D}, "max_paths": 600, "spread": rng.randrange(1 << 30)})
     for it in out:
